@@ -74,19 +74,21 @@ def scanDigits : Nat → Str → Option (List Nat × Str)
     else if prev = 95 then none
     else some ([], c :: cs)
 
+/-- an optional leading '+' or '-' removed -/
+def stripSign : Str → Str
+  | 43 :: r => r
+  | 45 :: r => r
+  | r => r
+
 /-- `PyLong_FromString(str, &end, 10)` on the transformed characters, together with the caller's
 `end == buffer + len` test.  `maxDigits` = `sys.get_int_max_str_digits()` (0 = no limit);
 640 = `_PY_LONG_MAX_STR_DIGITS_THRESHOLD`.  `none` = ValueError. -/
 def pyIntAscii (maxDigits : Nat) (t : Str) : Option Int :=
   let t1 := t.dropWhile isAsciiSpace
   let neg := t1.head? == some 45
-  let t2 := match t1 with
-    | 43 :: r => r
-    | 45 :: r => r
-    | r => r
-  match t2 with
-  | 95 :: _ => none                      -- "may not start with underscores"
-  | _ =>
+  let t2 := stripSign t1
+  if t2.head? == some 95 then none        -- "may not start with underscores"
+  else
     match scanDigits 0 t2 with
     | none => none
     | some (ds, rest) =>
